@@ -111,6 +111,7 @@ theorem Node.slotGet_pos (n : Node) (k : PKey) :
       | some c => .ok c
       | none => match n with
         | .list _ | .tuple _ => if k.asInt.isNone then .error .type else .error .index
+        | .nd _ _ _ | .buf _ => .error .other
         | _ => .error .key := by
   cases n with
   | dict es =>
@@ -128,6 +129,8 @@ theorem Node.slotGet_pos (n : Node) (k : PKey) :
     | some i => simp only [Option.bind_some]; cases (resolveIdx rs.length i).bind (rs[·]?) <;> simp
   | leaf v => simp [Node.slotGet, Node.slotPos]
   | null => simp [Node.slotGet, Node.slotPos]
+  | nd _ _ _ => simp [Node.slotGet, Node.slotPos]
+  | buf _ => simp [Node.slotGet, Node.slotPos]
 
 theorem Node.slotGet_ok_iff {n : Node} {k : PKey} {c : Ref} :
     n.slotGet k = .ok c ↔ ∃ j, n.slotPos k = some j ∧ n.refs[j]? = some c := by
@@ -205,6 +208,8 @@ theorem Node.slotPut_at_pos {n n' : Node} {k : PKey} {j : Nat} {c : Ref} (hp : n
       simp [Node.skel, Node.refs]
   | leaf v => simp [Node.slotPos] at hp
   | null => simp [Node.slotPos] at hp
+  | nd _ _ _ => simp [Node.slotPos] at hp
+  | buf _ => simp [Node.slotPos] at hp
 
 end MlModel.Tree
 
@@ -248,7 +253,7 @@ theorem setPath_rel (strict : Bool) {h : Heap} (hg : GoodDicts h) {L : Ref → R
       have hk2 := PKey.isPlain_ne_skip hkp
       have hnull : n1 ≠ .null := by intro e; subst e; simp [Node.slotGet] at hsl1
       obtain ⟨hm, child, hc, c, n', hext, hlt, hslot, hrec, hput, hcell, htq, hmc, hch', hsame⟩ :=
-        setPath_step hk1 hk2 e1 hnull hs
+        setPath_step hk1 hk2 e1 hnull (Node.slotGet_not_nd hsl1) hs
       have hchild : child = c1 := by
         rcases hslot with h1 | ⟨h1, _, _⟩
         · rw [hsl1] at h1; cases h1; rfl
